@@ -25,10 +25,14 @@ type rawResp struct {
 	err      string
 }
 
+// rawExtraHdr is added to every request rawRequest writes (client-controlled headers such as
+// X-Forwarded-For must not change who gets in).
+var rawExtraHdr string
+
 // rawRequest writes one HTTP/1.1 request with the given Authorization values and reads the answer.
 func rawRequest(c net.Conn, br *bufio.Reader, method, host string, auths []string, upgrade bool) rawResp {
 	var sb strings.Builder
-	fmt.Fprintf(&sb, "%s /remoteDesktopGateway/ HTTP/1.1\r\nHost: %s\r\n", method, host)
+	fmt.Fprintf(&sb, "%s /remoteDesktopGateway/ HTTP/1.1\r\nHost: %s\r\n%s", method, host, rawExtraHdr)
 	for _, a := range auths {
 		fmt.Fprintf(&sb, "Authorization: %s\r\n", a)
 	}
@@ -222,6 +226,20 @@ func runC05(r *Run) {
 			{"GET", []string{"Basic " + b64("alice:nope")}, false, "get-basic-wrong", true},
 			{"POST", []string{"Bearer x"}, false, "post-other", true},
 			{"RDG_IN_DATA", []string{"Basic " + b64("bob:wrong")}, false, "in-basic-wrong", true},
+			// right after a confirmed login: pairs whose concatenation, user name or password coincide
+			// with the confirmed one (a cache of confirmed credentials must not let them through)
+			{"RDG_OUT_DATA", []string{"Basic " + b64("alice:wonderland")}, true, "basic-right", true},
+			{"RDG_OUT_DATA", []string{"Basic " + b64("alicew:onderland")}, true, "basic-shifted-split", true},
+			{"RDG_OUT_DATA", []string{"Basic " + b64("alic:ewonderland")}, true, "basic-shifted-split", true},
+			{"RDG_OUT_DATA", []string{"Basic " + b64("alicewonderland:")}, true, "basic-shifted-split", true},
+			{"RDG_OUT_DATA", []string{"Basic " + b64(":alicewonderland")}, true, "basic-shifted-split", true},
+			{"RDG_OUT_DATA", []string{"Basic " + b64("alice:wonderland ")}, true, "basic-near-password", true},
+			{"RDG_OUT_DATA", []string{"Basic " + b64("alice:Wonderland")}, true, "basic-near-password", true},
+			{"RDG_OUT_DATA", []string{"Basic " + b64("Alice:wonderland")}, true, "basic-near-user", true},
+			{"RDG_OUT_DATA", []string{"Basic " + b64("bob:wonderland")}, true, "basic-other-user-same-password", true},
+			{"RDG_OUT_DATA", []string{"Basic " + b64("alice:builder")}, true, "basic-other-users-password", true},
+			{"RDG_OUT_DATA", []string{"Basic " + b64("alice:wonderland:x")}, true, "basic-extra-colon", true},
+			{"GET", []string{"Basic " + b64("alicew:onderland")}, false, "get-basic-shifted-split", true},
 		}
 		run := func(q c05Req, conn net.Conn, br *bufio.Reader) (rawResp, string, net.Conn, *bufio.Reader) {
 			if conn == nil || q.newConn {
@@ -469,6 +487,13 @@ func runC05(r *Run) {
 		ntlmExchange("NTLM", "alice", "wrong-password", true, false, "ntlm-wrong")
 		ntlmExchange("NTLM", "mallory", "x", true, false, "ntlm-unknown")
 		ntlmExchange("NTLM", "alice", "wonderland", false, false, "ntlm-other-connection")
+		// the same with client-controlled address headers equal on both connections
+		for _, hdr := range []string{"X-Forwarded-For: 203.0.113.9\r\n", "X-Forwarded-For: 203.0.113.9, 10.0.0.1\r\nX-Real-Ip: 203.0.113.9\r\n", "Forwarded: for=203.0.113.9\r\n"} {
+			rawExtraHdr = hdr
+			ntlmExchange("NTLM", "alice", "wonderland", false, false, "ntlm-other-connection-same-forwarded-address")
+			ntlmExchange("NTLM", "alice", "wonderland", true, false, "ntlm-right-forwarded-address")
+			rawExtraHdr = ""
+		}
 		p.stop()
 		if strings.Contains(p.stderr.String(), "panic") && !strings.Contains(p.stderr.String(), "http: panic serving") {
 			r.Violation("c05-crash", "the gateway process crashed during the request battery", p.stderr.String()[max0(len(p.stderr.String())-2000):])
